@@ -316,7 +316,8 @@ def rule_defer_wrapper(ctx):
         # (rules_cw.resolve_deferred). What remains here is that such wrappers exist and do not run f themselves.
         from .rules_cw import resolve_deferred
         helpers = [h for h in prog.auto_inline() if any(c.target == "ebr_impl::guard::Guard::defer_unchecked"
-                                                        for (_, _, c) in prog.bodies[h].calls())]
+                                                        for bb_ in [prog.bodies[h]] + prog.closures_of(h)
+                                                        for (_, _, c) in bb_.calls())]
         r.instance("deferral wrappers are refactoring helpers read inlined: %s" % sorted(helpers), bool(helpers))
         if not helpers:
             r.violate("utils", "wrapper", "no function hands closures to Guard::defer_unchecked any more")
@@ -327,6 +328,12 @@ def rule_defer_wrapper(ctx):
                     continue
                 du_ = [e for e in _calls(p) if e.target == "ebr_impl::guard::Guard::defer_unchecked"]
                 direct = [e for e in _calls(p) if "call_once" in (e.target or "") and not e.frame]
+                if not du_ and not direct:
+                    # the primitive is reached through a trait method of `Self` that cannot be resolved standalone
+                    # (a provided method): the hand-offs are resolved where the helper is read inlined
+                    n += 3
+                    r.instance("%s: judged at its call sites (generic over the implementor)" % h.split("::")[-1], True)
+                    continue
                 ok = len(du_) == 1 and not direct
                 n += 3
                 r.instance("%s defers its closure exactly once and does not run it" % h.split("::")[-1], ok)
